@@ -96,7 +96,12 @@ def reduced_alphabet() -> list[tuple[str, int]]:
     return out
 
 
-ALPHABETS = {"full": full_alphabet(), "reduced": reduced_alphabet()}
+def mini_alphabet() -> list[tuple[str, int]]:
+    """8 lines for 5-line texts in the quick tier: two nested bodies, leaves and comments at the three levels."""
+    return [("Block", 0), ("Watch", 4), ("Mark", 8), ("Mark", 4), ("comment", 4), ("comment", 8), ("End block", 4), ("Mark", 0)]
+
+
+ALPHABETS = {"full": full_alphabet(), "reduced": reduced_alphabet(), "mini": mini_alphabet()}
 
 # ---------------------------------------------------------------------------------------------------------------
 # reference implementation of the law
@@ -402,7 +407,7 @@ def structured_items(name: str, lengths) -> list:
 
 
 def run(ctx):
-    plan = [("full", (1, 2, 3))] if ctx.quick else [("full", (1, 2, 3, 4)), ("reduced", (5,))]
+    plan = [("full", (1, 2, 3)), ("mini", (4, 5))] if ctx.quick else [("full", (1, 2, 3, 4)), ("reduced", (5,)), ("mini", (6,))]
     ctx.prove_deterministic(_probe, [[("Block", 0), ("Mark", 4)], [("Block", 0), ("comment", 2), ("Watch", 4), ("Mark", 0)],
                                      [("Mark", 2), ("Macro", 8), ("blank", 0)]])
     # the reference law itself: fixed points written out by hand
